@@ -46,6 +46,10 @@ def configs(tier):
     for (a, b, Q) in [(1, 1, 1), (2, 3, 1), (3, 2, 1), (3, 3, 1), (4, 5, 1), (5, 4, 1), (5, 5, 1), (3, 3, 2), (3, 2, 3), (1, 5, 3)] + \
             ([] if q else [(6, 7, 1), (7, 7, 1), (3, 5, 3), (5, 3, 2)]):
         out.append({'name': 'fft-origin-%dx%d-Q%d' % (a, b, Q), 'kind': 'fft_origin', 'shape': [a, b], 'Q': Q})
+    # ... and so do both fixed-sampling routes, for every parity combination of input and output lengths
+    for meth in ('mdft', 'czt'):
+        for (a, b, A, B) in [(2, 3, 3, 2), (2, 2, 3, 3), (3, 3, 2, 2), (4, 2, 3, 5)] + ([] if q else [(4, 4, 5, 3), (3, 5, 4, 2), (2, 4, 5, 5)]):
+            out.append({'name': 'fixed-origin-%s-%dx%d-%dx%d' % (meth, a, b, A, B), 'kind': 'fixed_origin', 'method': meth, 'shape': [a, b], 'out': [A, B]})
     for (a, b) in [(1, 2), (2, 2), (2, 3), (3, 2)] + ([] if q else [(3, 3)]):
         out.append({'name': 'centroid-weights-%dx%d' % (a, b), 'kind': 'centroid_w', 'shape': [a, b]})
     return out
@@ -57,6 +61,8 @@ def params(cfg):
         return [('value', {})]
     if k in ('grid', 'slices', 'centroid_point'):
         return [('dx', {'pos': True}), ('dia', {'pos': True})]
+    if k == 'fixed_origin':
+        return [('dx', {'pos': True}), ('wvl', {'pos': True}), ('efl', {'pos': True}), ('odx', {'pos': True})]
     if k == 'centroid_w':
         a, b = cfg['shape']
         return [('dx', {'pos': True})] + [('w_%d_%d' % (i, j), {'pos': True}) for i in range(a) for j in range(b)]
@@ -168,6 +174,19 @@ def run(cfg, H):
                 cy, cx = psf.centroid(img, dx)
                 H.eq('centroid of a point at (%d,%d)' % (i0, j0), H.asarray([cy, cx]),
                      H.asarray([(i0 - shp[0] // 2) * dx, (j0 - shp[1] // 2) * dx]))
+    elif k == 'fixed_origin':
+        prop = H.mod('prysm.propagation')
+        np = H.np
+        m, n = cfg['shape']
+        M, N = cfg['out']
+        dx, wvl, efl, odx = H.param('dx'), H.param('wvl'), H.param('efl'), H.param('odx')
+        for nm_, fn in (('focus_fixed_sampling', prop.focus_fixed_sampling), ('unfocus_fixed_sampling', prop.unfocus_fixed_sampling)):
+            K = np.asarray(H.linear_map(lambda f: fn(f, dx, efl, wvl, odx, (M, N), method=cfg['method']), (m, n), name=nm_[0])).reshape(m, n, M, N)
+            c = K[m // 2, n // 2, M // 2, N // 2]
+            H.eq('%s: output sample N//2 is the zero-frequency one (same weight for every input sample)' % nm_,
+                 K[:, :, M // 2, N // 2], c + 0 * K[:, :, M // 2, N // 2])
+            H.eq('%s: the input origin sample n//2 contributes equally to every output sample' % nm_,
+                 K[m // 2, n // 2], c + 0 * K[m // 2, n // 2])
     elif k == 'fft_origin':
         prop = H.mod('prysm.propagation')
         np = H.np
